@@ -690,7 +690,30 @@ package gts
 //@   ensures guest: forall k in 0..len(bytesOf(guest)): bytesOf(out)[index+k] == old(bytesOf(guest)[k])
 //@   ensures tail: forall k in index+len(bytesOf(guest))..len(bytesOf(out)): bytesOf(out)[k] == old(bytesOf(host)[k-len(bytesOf(guest))])
 //@   ensures count: len(featsOf(out)) == len(featsOf(host)) + len(featsOf(guest)) && fresh(featsOf(out))
+//@   ghost QH(k int) int
+//@   ghost QG(k int) int
+//@   ensures wiring_host: forall k in 0..len(featsOf(host)): 0 <= QH(k) && QH(k) < len(featsOf(out)) && featsOf(out)[QH(k)].Key == old(featsOf(host)[k].Key) &&
+//@      sameslice(featsOf(out)[QH(k)].Props, old(featsOf(host)[k].Props)) &&
+//@      valOf(featsOf(out)[QH(k)].Loc) == shiftId(valOf(old(featsOf(host)[k].Loc)), index, len(bytesOf(guest)))
+//@   ensures wiring_guest: forall k in 0..len(featsOf(guest)): 0 <= QG(k) && QG(k) < len(featsOf(out)) && featsOf(out)[QG(k)].Key == old(featsOf(guest)[k].Key) &&
+//@      sameslice(featsOf(out)[QG(k)].Props, old(featsOf(guest)[k].Props)) &&
+//@      valOf(featsOf(out)[QG(k)].Loc) == expId(valOf(old(featsOf(guest)[k].Loc)), 0, index)
+//@   ensures wiring_injective: (forall a in 0..len(featsOf(host)): forall b in a+1..len(featsOf(host)): QH(a) != QH(b)) &&
+//@      (forall a in 0..len(featsOf(guest)): forall b in a+1..len(featsOf(guest)): QG(a) != QG(b)) &&
+//@      (forall a in 0..len(featsOf(host)): forall b in 0..len(featsOf(guest)): QH(a) != QG(b))
 //@   assigns nothing
+//@   loop 1: ghost_update QH(k) := ite(k == idx1 - 1, Insert_P(0), ite(QH(k) >= Insert_P(0), QH(k) + 1, QH(k)))
+//@   loop 1: invariant forall k in 0..idx1: 0 <= QH(k) && QH(k) < len(ff) && ff[QH(k)].Key == old(featsOf(host)[k].Key) && sameslice(ff[QH(k)].Props, old(featsOf(host)[k].Props)) &&
+//@      valOf(ff[QH(k)].Loc) == shiftId(valOf(old(featsOf(host)[k].Loc)), index, len(bytesOf(guest)))
+//@   loop 1: invariant forall a in 0..idx1: forall b in a+1..idx1: QH(a) != QH(b)
+//@   loop 2: ghost_update QH(k) := ite(QH(k) >= Insert_P(0), QH(k) + 1, QH(k))
+//@   loop 2: ghost_update QG(k) := ite(k == idx2 - 1, Insert_P(0), ite(QG(k) >= Insert_P(0), QG(k) + 1, QG(k)))
+//@   loop 2: invariant forall k in 0..len(featsOf(host)): 0 <= QH(k) && QH(k) < len(ff) && ff[QH(k)].Key == old(featsOf(host)[k].Key) && sameslice(ff[QH(k)].Props, old(featsOf(host)[k].Props)) &&
+//@      valOf(ff[QH(k)].Loc) == shiftId(valOf(old(featsOf(host)[k].Loc)), index, len(bytesOf(guest)))
+//@   loop 2: invariant forall k in 0..idx2: 0 <= QG(k) && QG(k) < len(ff) && ff[QG(k)].Key == old(featsOf(guest)[k].Key) && sameslice(ff[QG(k)].Props, old(featsOf(guest)[k].Props)) &&
+//@      valOf(ff[QG(k)].Loc) == expId(valOf(old(featsOf(guest)[k].Loc)), 0, index)
+//@   loop 2: invariant (forall a in 0..len(featsOf(host)): forall b in a+1..len(featsOf(host)): QH(a) != QH(b)) && (forall a in 0..idx2: forall b in a+1..idx2: QG(a) != QG(b)) &&
+//@      (forall a in 0..len(featsOf(host)): forall b in 0..idx2: QH(a) != QG(b))
 //@   loop 1: invariant len(ff) == idx1 && fresh(ff)
 //@   loop 1: decreases len(featsOf(host)) - idx1
 //@   loop 2: invariant len(ff) == len(featsOf(host)) + idx2 && fresh(ff)
@@ -704,7 +727,30 @@ package gts
 //@   ensures guest: forall k in 0..len(bytesOf(guest)): bytesOf(out)[index+k] == old(bytesOf(guest)[k])
 //@   ensures tail: forall k in index+len(bytesOf(guest))..len(bytesOf(out)): bytesOf(out)[k] == old(bytesOf(host)[k-len(bytesOf(guest))])
 //@   ensures count: len(featsOf(out)) == len(featsOf(host)) + len(featsOf(guest)) && fresh(featsOf(out))
+//@   ghost QH(k int) int
+//@   ghost QG(k int) int
+//@   ensures wiring_host: forall k in 0..len(featsOf(host)): 0 <= QH(k) && QH(k) < len(featsOf(out)) && featsOf(out)[QH(k)].Key == old(featsOf(host)[k].Key) &&
+//@      sameslice(featsOf(out)[QH(k)].Props, old(featsOf(host)[k].Props)) &&
+//@      valOf(featsOf(out)[QH(k)].Loc) == expId(valOf(old(featsOf(host)[k].Loc)), index, len(bytesOf(guest)))
+//@   ensures wiring_guest: forall k in 0..len(featsOf(guest)): 0 <= QG(k) && QG(k) < len(featsOf(out)) && featsOf(out)[QG(k)].Key == old(featsOf(guest)[k].Key) &&
+//@      sameslice(featsOf(out)[QG(k)].Props, old(featsOf(guest)[k].Props)) &&
+//@      valOf(featsOf(out)[QG(k)].Loc) == expId(valOf(old(featsOf(guest)[k].Loc)), 0, index)
+//@   ensures wiring_injective: (forall a in 0..len(featsOf(host)): forall b in a+1..len(featsOf(host)): QH(a) != QH(b)) &&
+//@      (forall a in 0..len(featsOf(guest)): forall b in a+1..len(featsOf(guest)): QG(a) != QG(b)) &&
+//@      (forall a in 0..len(featsOf(host)): forall b in 0..len(featsOf(guest)): QH(a) != QG(b))
 //@   assigns nothing
+//@   loop 1: ghost_update QH(k) := ite(k == idx1 - 1, Insert_P(0), ite(QH(k) >= Insert_P(0), QH(k) + 1, QH(k)))
+//@   loop 1: invariant forall k in 0..idx1: 0 <= QH(k) && QH(k) < len(ff) && ff[QH(k)].Key == old(featsOf(host)[k].Key) && sameslice(ff[QH(k)].Props, old(featsOf(host)[k].Props)) &&
+//@      valOf(ff[QH(k)].Loc) == expId(valOf(old(featsOf(host)[k].Loc)), index, len(bytesOf(guest)))
+//@   loop 1: invariant forall a in 0..idx1: forall b in a+1..idx1: QH(a) != QH(b)
+//@   loop 2: ghost_update QH(k) := ite(QH(k) >= Insert_P(0), QH(k) + 1, QH(k))
+//@   loop 2: ghost_update QG(k) := ite(k == idx2 - 1, Insert_P(0), ite(QG(k) >= Insert_P(0), QG(k) + 1, QG(k)))
+//@   loop 2: invariant forall k in 0..len(featsOf(host)): 0 <= QH(k) && QH(k) < len(ff) && ff[QH(k)].Key == old(featsOf(host)[k].Key) && sameslice(ff[QH(k)].Props, old(featsOf(host)[k].Props)) &&
+//@      valOf(ff[QH(k)].Loc) == expId(valOf(old(featsOf(host)[k].Loc)), index, len(bytesOf(guest)))
+//@   loop 2: invariant forall k in 0..idx2: 0 <= QG(k) && QG(k) < len(ff) && ff[QG(k)].Key == old(featsOf(guest)[k].Key) && sameslice(ff[QG(k)].Props, old(featsOf(guest)[k].Props)) &&
+//@      valOf(ff[QG(k)].Loc) == expId(valOf(old(featsOf(guest)[k].Loc)), 0, index)
+//@   loop 2: invariant (forall a in 0..len(featsOf(host)): forall b in a+1..len(featsOf(host)): QH(a) != QH(b)) && (forall a in 0..idx2: forall b in a+1..idx2: QG(a) != QG(b)) &&
+//@      (forall a in 0..len(featsOf(host)): forall b in 0..idx2: QH(a) != QG(b))
 //@   loop 1: invariant len(ff) == idx1 && fresh(ff)
 //@   loop 1: decreases len(featsOf(host)) - idx1
 //@   loop 2: invariant len(ff) == len(featsOf(host)) + idx2 && fresh(ff)
